@@ -194,6 +194,7 @@ func TestC06HandlerIsolation(t *testing.T) {
 			var b strings.Builder
 			b.WriteString("route add redir r.example/ https://$host$path opts \"redirect=301\"\n")
 			b.WriteString("route add redir2 r.example/keep http://fixed.example/base$path opts \"redirect=302 strip=/keep\"\n")
+			b.WriteString("route add redir3 *.rh.example/ https://$host/landing opts \"redirect=307\"\n")
 			b.WriteString("route add acl a.example/ http://acl-up:80/ opts \"allow=ip:10.0.0.0/8,ip:2001:db8::/32\"\n")
 			b.WriteString("route add dny d.example/ http://dny-up:80/ opts \"deny=ip:10.0.0.0/8\"\n")
 			for i := 0; i < nApps; i++ {
@@ -240,7 +241,7 @@ func TestC06HandlerIsolation(t *testing.T) {
 				if atomic.AddInt64(&inflight, 1) > 1 {
 					atomic.AddInt64(&overlapped, 1)
 				}
-				kind := (g + i) % 5
+				kind := (g + i) % 6
 				rec := httptest.NewRecorder()
 				switch kind {
 				case 0: // $host$path redirect
@@ -258,6 +259,14 @@ func TestC06HandlerIsolation(t *testing.T) {
 					p.ServeHTTP(rec, req)
 					if want := fmt.Sprintf("http://fixed.example/base/g%d-%d?q=%d", g, i, g); rec.Code != 302 || rec.Header().Get("Location") != want {
 						fe.set("goroutine %d: redirect answered %d Location %q, want 302 %q", g, rec.Code, rec.Header().Get("Location"), want)
+					}
+				case 5: // $host without $path: still depends on the request
+					host := fmt.Sprintf("g%d.rh.example", g)
+					req := httptest.NewRequest("GET", "http://"+host+"/whatever", nil)
+					req.RemoteAddr = "192.0.2.1:1"
+					p.ServeHTTP(rec, req)
+					if want := "https://" + host + "/landing"; rec.Code != 307 || rec.Header().Get("Location") != want {
+						fe.set("goroutine %d: $host redirect answered %d Location %q, want 307 %q", g, rec.Code, rec.Header().Get("Location"), want)
 					}
 				case 2: // allow list: even goroutines are inside
 					req := httptest.NewRequest("GET", "http://a.example/x", nil)
